@@ -188,8 +188,7 @@ Qed.
 Lemma pdu_ok_small p : pdu_ok p -> nthb p 1 <> c_ERROR -> zlen p <= 123.
 Proof.
   intros (Hc & Hl & _) Hne. pose proof (check_size_cases p Hc) as C. cbv zeta in C. rewrite Hl.
-  change c_ERROR with 10 in Hne. repeat destruct C as [C|C]; try lia.
-  destruct C as [_ [[_ ?]|[_ ?]]]; lia.
+  change c_ERROR with 10 in Hne. repeat destruct C as [C|C]; lia.
 Qed.
 Lemma pdu_ok_len p k : pdu_ok p -> nthb p 1 = k ->
   (k = c_IPV4_PREFIX -> zlen p = 20) /\ (k = c_IPV6_PREFIX -> zlen p = 32) /\ (k = c_ROUTER_KEY -> zlen p = 123) /\
@@ -200,7 +199,6 @@ Proof.
   change c_IPV4_PREFIX with 4. change c_IPV6_PREFIX with 6. change c_ROUTER_KEY with 9. change c_EOD with 7.
   change c_CACHE_RESPONSE with 3. change c_SERIAL_NOTIFY with 0.
   repeat destruct C as [C|C]; repeat split; intros; try lia.
-  destruct C as [_ [[? ?]|[? ?]]]; [left|right]; split; lia.
 Qed.
 
 (* ---------- the receive buffer discipline ---------- *)
@@ -240,4 +238,296 @@ Proof.
     pose proof (get32_bounds p 8 Hb) as B1. pose proof (get32_bounds p (Z.to_nat (12 + get32 p 8)) Hb) as B2.
     cbn [forallb]. unfold range_ok. cbn [fst snd]. rewrite Hl.
     repeat (apply andb_true_iff; split); try apply Z.leb_le; try lia.
+Qed.
+
+(* ---------- no consumer depends on anything beyond the received bytes ----------
+   The model reads list positions with a default ([nthb] = nth _ _ 0).  The following lemmas show
+   the default is never what a result depends on: appending ARBITRARY junk behind an accepted PDU
+   changes nothing, i.e. no position >= length p is read. *)
+Lemma skipn_app_l {A} n (a b : list A) : (n <= length a)%nat -> skipn n (a ++ b) = skipn n a ++ b.
+Proof. intros. rewrite skipn_app. replace (n - length a)%nat with 0%nat by lia. reflexivity. Qed.
+Lemma firstn_app_l {A} n (a b : list A) : (n <= length a)%nat -> firstn n (a ++ b) = firstn n a.
+Proof. intros. rewrite firstn_app. replace (n - length a)%nat with 0%nat by lia. cbn [firstn]. now rewrite app_nil_r. Qed.
+
+Theorem check_size_local (p junk : list byte) :
+  Forall byte_ok p -> zlen p = get32 p 4 -> 8 <= zlen p -> check_size (p ++ junk) = check_size p.
+Proof.
+  intros Hb Hl H8. assert (L : (8 <= length p)%nat) by (unfold zlen in H8; lia).
+  unfold check_size. rewrite !nthb_app_l by lia. rewrite (get32_app_l p junk 4) by lia.
+  repeat match goal with |- (if ?c then _ else _) = (if ?c then _ else _) => destruct c; [reflexivity|] end.
+  destruct (nthb p 1 =? c_ERROR); [|reflexivity].
+  destruct (get32 p 4 <? 16) eqn:L1; [reflexivity|]. apply Z.ltb_ge in L1.
+  rewrite (get32_app_l p junk 8) by (unfold zlen in *; lia).
+  destruct (get32 p 4 <? 16 + get32 p 8) eqn:L2; [reflexivity|]. apply Z.ltb_ge in L2.
+  pose proof (get32_bounds p 8 Hb).
+  rewrite (get32_app_l p junk (Z.to_nat (12 + get32 p 8))) by (unfold zlen in *; lia). reflexivity.
+Qed.
+
+Theorem consumers_local (p junk : list byte) :
+  Forall byte_ok p -> pdu_ok p ->
+  check_size (p ++ junk) = check_size p /\
+  nthb (p ++ junk) 0 = nthb p 0 /\ nthb (p ++ junk) 1 = nthb p 1 /\ get16 (p ++ junk) 2 = get16 p 2 /\
+  firstn 8 (p ++ junk) = firstn 8 p /\
+  (nthb p 1 = c_IPV4_PREFIX \/ nthb p 1 = c_IPV6_PREFIX ->
+     prec_of_pdu (p ++ junk) = prec_of_pdu p /\ pdu_flags (p ++ junk) = pdu_flags p /\
+     prefix_lengths_valid (p ++ junk) = prefix_lengths_valid p) /\
+  (nthb p 1 = c_ROUTER_KEY -> krec_of_pdu (p ++ junk) = krec_of_pdu p /\ pdu_flags (p ++ junk) = pdu_flags p) /\
+  (nthb p 1 = c_EOD -> get32 (p ++ junk) 8 = get32 p 8 /\ forall s, apply_eod_intervals s (p ++ junk) = apply_eod_intervals s p) /\
+  (nthb p 1 = c_ERROR -> handle_error_pdu (p ++ junk) = handle_error_pdu p).
+Proof.
+  intros Hb Hok. pose proof Hok as (Hc & Hl & Hr).
+  assert (L : (8 <= length p)%nat) by (unfold zlen in Hr; lia).
+  split; [apply check_size_local; auto; lia|].
+  split; [apply nthb_app_l; lia|]. split; [apply nthb_app_l; lia|]. split; [apply get16_app_l; lia|].
+  split; [apply firstn_app_l; lia|].
+  split; [|split; [|split]].
+  - intros Ht.
+    assert (Hn : (20 <= length p)%nat /\ (nthb p 1 = c_IPV6_PREFIX -> (32 <= length p)%nat)).
+    { destruct Ht as [Ht|Ht]; pose proof (pdu_ok_len p _ Hok Ht) as (H4 & H6 & _); unfold zlen in *.
+      - specialize (H4 eq_refl). split; [lia|]. rewrite Ht. discriminate.
+      - specialize (H6 eq_refl). split; [lia|]. intros _. lia. }
+    destruct Hn as [Hn4 Hn6].
+    unfold prec_of_pdu, pdu_flags, prefix_lengths_valid. rewrite !nthb_app_l by lia. split; [|split; reflexivity].
+    destruct (nthb p 1 =? c_IPV6_PREFIX) eqn:E6.
+    + apply Z.eqb_eq in E6. specialize (Hn6 E6).
+      rewrite skipn_app_l, firstn_app_l, get32_app_l by (rewrite ?skipn_length; lia). reflexivity.
+    + rewrite skipn_app_l, firstn_app_l, get32_app_l by (rewrite ?skipn_length; lia). reflexivity.
+  - intros Ht. pose proof (pdu_ok_len p _ Hok Ht) as (_ & _ & H9 & _). specialize (H9 eq_refl).
+    assert (Hn : (length p = 123)%nat) by (unfold zlen in H9; lia).
+    unfold krec_of_pdu, pdu_flags. rewrite !nthb_app_l by lia.
+    rewrite !skipn_app_l, !firstn_app_l, get32_app_l by (rewrite ?skipn_length; lia). split; reflexivity.
+  - intros Ht. pose proof (pdu_ok_len p _ Hok Ht) as (_ & _ & _ & H7 & _). specialize (H7 eq_refl).
+    assert (Hn : (12 <= length p)%nat /\ (nthb p 0 = 1 -> (24 <= length p)%nat)) by (unfold zlen in H7; lia).
+    destruct Hn as [Hn Hn1]. split; [apply get32_app_l; lia|].
+    intros s. unfold apply_eod_intervals. rewrite nthb_app_l by lia.
+    destruct (nthb p 0 =? 1) eqn:E1; [|reflexivity]. apply Z.eqb_eq in E1. specialize (Hn1 E1).
+    rewrite !get32_app_l by lia. reflexivity.
+  - intros Ht. unfold handle_error_pdu. rewrite get16_app_l, nthb_app_l by lia. reflexivity.
+Qed.
+
+(* ---------- the records handed to the prefix table ---------- *)
+Lemma bits_of_bytes_length l : length (bits_of_bytes l) = (8 * length l)%nat.
+Proof. induction l as [|b l IH]; [reflexivity|]. cbn [bits_of_bytes]. rewrite app_length, IH. cbn [map length]. lia. Qed.
+
+(* a prefix PDU that reaches the store (accepted by receive_pdu and by prefix_lengths_valid) yields a record
+   with an address of exactly the family's width and both lengths within [0, width] *)
+Theorem stored_prefix_lengths (p : list byte) :
+  Forall byte_ok p -> pdu_ok p -> nthb p 1 = c_IPV4_PREFIX \/ nthb p 1 = c_IPV6_PREFIX -> prefix_lengths_valid p = true ->
+  let '(v6, bits, len, mx, asn, _) := prec_of_pdu p in
+  let width := if v6 then 128 else 32 in
+  Z.of_nat (length bits) = width /\ 0 <= len <= width /\ 0 <= mx <= width /\ 0 <= asn < 4294967296.
+Proof.
+  intros Hb Hok Ht Hv. unfold prec_of_pdu.
+  pose proof (nthb_ok p 9 Hb) as B9. pose proof (nthb_ok p 10 Hb) as B10. unfold byte_ok in *.
+  unfold prefix_lengths_valid in Hv. apply andb_true_iff in Hv. destruct Hv as [V1 V2]. apply Z.leb_le in V1, V2.
+  destruct Ht as [Ht|Ht]; pose proof (pdu_ok_len p _ Hok Ht) as (H4 & H6 & _); rewrite Ht in *.
+  - specialize (H4 eq_refl). change (c_IPV4_PREFIX =? c_IPV6_PREFIX) with false. change (c_IPV4_PREFIX =? c_IPV4_PREFIX) with true in *.
+    rewrite bits_of_bytes_length, firstn_length, skipn_length. unfold zlen in H4.
+    split; [lia|]. split; [lia|]. split; [lia|]. apply get32_bounds, Hb.
+  - specialize (H6 eq_refl). change (c_IPV6_PREFIX =? c_IPV6_PREFIX) with true. change (c_IPV6_PREFIX =? c_IPV4_PREFIX) with false in *.
+    rewrite bits_of_bytes_length, firstn_length, skipn_length. unfold zlen in H6.
+    split; [lia|]. split; [lia|]. split; [lia|]. apply get32_bounds, Hb.
+Qed.
+
+(* ---------- fuel: the receive script is the only thing that ends the PDU loops ---------- *)
+Fixpoint ev_bytes (es : list ev) : nat :=
+  match es with
+  | [] => 0
+  | EvData b :: r => length b + ev_bytes r
+  | _ :: r => ev_bytes r
+  end.
+
+Definition M (w w' : world) : Prop := (ev_bytes (evs w') <= ev_bytes (evs w))%nat.
+Lemma M_refl w : M w w. Proof. unfold M. lia. Qed.
+Lemma M_trans a b c : M a b -> M b c -> M a c. Proof. unfold M. lia. Qed.
+
+Lemma tr_recv_evs_bytes es : forall len tmo left t r es' t' tr,
+  1 <= len -> tr_recv_evs es len tmo left t = (r, es', t', tr) ->
+  match r with
+  | Some (inr b) => ev_bytes es = (length b + ev_bytes es')%nat
+  | _ => (ev_bytes es' <= ev_bytes es)%nat
+  end.
+Proof.
+  induction es as [|e es IH]; intros len tmo left t r es' t' tr Hl H; cbn [tr_recv_evs] in H.
+  - injection H as <- <- _ _. cbn. lia.
+  - destruct e as [d|c|v|].
+    + destruct d as [|x d]; [apply IH in H; auto|].
+      injection H as <- <- _ _.
+      set (b := x :: d) in *. set (n := Z.min len (zlen b)).
+      assert (Hz : 1 <= zlen b) by (unfold b; rewrite zlen_cons; pose proof (zlen_nonneg d); lia).
+      assert (Hn : 0 <= n <= zlen b) by (unfold n; lia).
+      assert (Hs : (length (firstn (Z.to_nat n) b) + length (skipn (Z.to_nat n) b) = length b)%nat).
+      { rewrite <- app_length, firstn_skipn. reflexivity. }
+      cbn [ev_bytes]. fold b.
+      destruct (skipn (Z.to_nat n) b) as [|y l] eqn:Ek.
+      * cbn [length] in Hs. lia.
+      * cbn [ev_bytes]. lia.
+    + injection H as <- <- _ _. cbn [ev_bytes]. lia.
+    + destruct (v <=? left); [apply IH in H; auto|]. injection H as <- <- _ _. cbn [ev_bytes]. lia.
+    + injection H as <- <- _ _. cbn [ev_bytes]. lia.
+Qed.
+
+Lemma tr_recv_bytes len tmo w : 1 <= len ->
+  match tr_recv len tmo w with
+  | Ok (inr b) w' => ev_bytes (evs w) = (length b + ev_bytes (evs w'))%nat
+  | Ok (inl _) w' => M w w'
+  | Exc _ w' => M w w'
+  end.
+Proof.
+  intros Hl. unfold tr_recv.
+  destruct (tr_recv_evs (evs w) len tmo (Z.max 0 tmo) (now w)) as [[[r es] t'] tr] eqn:E.
+  apply tr_recv_evs_bytes in E; [|exact Hl].
+  destruct r as [[c|b]|]; [destruct (c =? -99)| |]; unfold M; cbn [evs]; exact E.
+Qed.
+
+Lemma tr_recv_all_loop_bytes fuel : forall len e acc w,
+  match tr_recv_all_loop fuel len e acc w with
+  | Ok (inr r) w' => (ev_bytes (evs w) + length acc = length r + ev_bytes (evs w'))%nat
+  | Ok (inl _) w' => M w w'
+  | Exc _ w' => M w w'
+  end.
+Proof.
+  induction fuel as [|f IH]; intros len e acc w; cbn [tr_recv_all_loop]; [unfold ret; lia|].
+  destruct (zlen acc >=? len) eqn:Eg; [unfold ret; lia|].
+  rewrite Z.geb_leb in Eg. apply Z.leb_gt in Eg.
+  unfold bind at 1. unfold get_now. unfold bind at 1.
+  pose proof (tr_recv_bytes (len - zlen acc) (e - now w) w ltac:(lia)) as Hr.
+  destruct (tr_recv (len - zlen acc) (e - now w) w) as [[c|b] w1|x w1]; try exact Hr.
+  specialize (IH len e (acc ++ b) w1).
+  destruct (tr_recv_all_loop f len e (acc ++ b) w1) as [[c|r] w2|x w2]; unfold M in *; rewrite ?app_length in IH; lia.
+Qed.
+
+Lemma tr_recv_all_bytes len tmo w :
+  match tr_recv_all len tmo w with
+  | Ok (inr r) w' => (ev_bytes (evs w) = length r + ev_bytes (evs w'))%nat
+  | Ok (inl _) w' => M w w'
+  | Exc _ w' => M w w'
+  end.
+Proof.
+  unfold tr_recv_all, bind, get_now.
+  pose proof (tr_recv_all_loop_bytes (Z.to_nat len) len (now w + tmo) [] w) as H.
+  destruct (tr_recv_all_loop (Z.to_nat len) len (now w + tmo) [] w) as [[c|r] w'|x w']; cbn [length] in H; try exact H. lia.
+Qed.
+
+Notation relM := (rel M).
+Ltac mfin := unfold M; cbn [evs]; try lia.
+Ltac mbind := apply (rel_bind M M_trans).
+Ltac mprim := unfold rel; unfold_prims; mfin.
+Ltac mstep :=
+  match goal with
+  | |- relM (ret _) _ => apply (rel_ret M M_refl)
+  | |- relM (bind get_sk _) ?w => mbind; [mprim | let H := fresh "Heq" in intros ? ? H; unfold_prims_in H; injection H as <- <-]
+  | |- relM (bind get_now _) ?w => mbind; [mprim | let H := fresh "Heq" in intros ? ? H; unfold_prims_in H; injection H as <- <-]
+  | |- relM (bind _ _) ?w => mbind; [ | intros ? ? ?Heq]
+  | |- relM (if ?c then _ else _) _ => destruct c eqn:?
+  | |- relM (match ?x with _ => _ end) _ => destruct x eqn:?
+  | |- relM ((fun _ => _) _) _ => cbv beta
+  | |- relM (let _ := _ in _) _ => cbv zeta
+  end.
+
+Lemma change_state_M ns w : relM (change_state ns) w.
+Proof. unfold rel. rewrite change_state_eq. destruct (_ || _); mfin. Qed.
+Lemma tr_recv_all_M len t w : relM (tr_recv_all len t) w.
+Proof.
+  unfold rel. pose proof (tr_recv_all_bytes len t w) as H.
+  destruct (tr_recv_all len t w) as [[c|r] w'|x w']; try exact H. unfold M. lia.
+Qed.
+Lemma frame_send_M w w' : frame_send w w' -> M w w'.
+Proof. intros (_ & _ & _ & He & _). unfold M. rewrite He. lia. Qed.
+Lemma send_pdu_M b w : relM (send_pdu b) w.
+Proof.
+  unfold send_pdu. repeat mstep.
+  unfold rel, tr_send_all. pose proof (tr_send_all_loop_spec (length b) b 0 w (le_n _)) as H.
+  destruct (tr_send_all_loop (length b) b 0 w); [|contradiction]. apply frame_send_M, H.
+Qed.
+Lemma send_error_pdu_M enc c t w : relM (send_error_pdu enc c t) w.
+Proof. unfold send_error_pdu. repeat mstep. apply send_pdu_M. Qed.
+Lemma send_error_from_host_M enc c t w : relM (send_error_from_host enc c t) w.
+Proof. unfold send_error_from_host. repeat mstep; apply send_error_pdu_M. Qed.
+Lemma recv_err_M c w : relM (recv_err c) w.
+Proof. unfold recv_err. repeat mstep; apply change_state_M. Qed.
+Ltac mlem :=
+  match goal with
+  | |- relM (change_state _) _ => apply change_state_M
+  | |- relM (tr_recv_all _ _) _ => apply tr_recv_all_M
+  | |- relM (send_error_pdu _ _ _) _ => apply send_error_pdu_M
+  | |- relM (send_error_from_host _ _ _) _ => apply send_error_from_host_M
+  | |- relM (recv_err _) _ => apply recv_err_M
+  end.
+
+(* a PDU handed out by receive_pdu cost the script at least its 8 header bytes *)
+Theorem receive_pdu_consumes t w :
+  match receive_pdu t w with
+  | Ok (inr p) w' => (ev_bytes (evs w') + 8 <= ev_bytes (evs w))%nat
+  | Ok (inl _) w' => M w w'
+  | Exc _ w' => M w w'
+  end.
+Proof.
+  unfold receive_pdu. unfold bind at 1. unfold get_sk.
+  destruct (st (sk w) =? c_RTR_SHUTDOWN); [unfold ret; apply M_refl|].
+  unfold bind at 1.
+  pose proof (tr_recv_all_bytes 8 t w) as H8. pose proof (tr_recv_all_spec 8 t w ltac:(lia)) as H8'.
+  destruct (tr_recv_all 8 t w) as [[c|h] w1|x w1]; [ | |exact H8].
+  - pose proof (recv_err_M c w1) as Hk. unfold rel in Hk.
+    destruct (recv_err c w1) as [[c'|p'] w2|x w2] eqn:Er; try (eapply M_trans; eauto).
+    exfalso. eapply never_pdu_elim; [apply recv_err_never|exact Er].
+  - destruct H8' as [Hh _]. assert (Hl : length h = 8%nat) by (unfold zlen in Hh; lia).
+    match goal with |- match ?m w1 with _ => _ end => assert (Hk : relM m w1) end.
+    { repeat mstep; try mlem; try (mprim; fail). }
+    unfold rel in Hk.
+    match goal with |- match ?m w1 with _ => _ end => destruct (m w1) as [[c'|p'] w2|x w2] end; unfold M in *; lia.
+Qed.
+
+Lemma receive_pdu_M t w : relM (receive_pdu t) w.
+Proof.
+  unfold rel. pose proof (receive_pdu_consumes t w) as H.
+  destruct (receive_pdu t w) as [[c|p] w'|x w']; try exact H. unfold M. lia.
+Qed.
+
+(* more fuel than the script can pay for changes nothing: [store_loop] and [sync_first] stop because
+   of what the script delivers, never because the fuel ran out *)
+Theorem store_loop_fuel f1 : forall f2 v4 v6 ks w,
+  (ev_bytes (evs w) < 8 * f1)%nat -> (f1 <= f2)%nat -> store_loop f1 v4 v6 ks w = store_loop f2 v4 v6 ks w.
+Proof.
+  induction f1 as [|f1 IH]; intros f2 v4 v6 ks w Hb Hf; [lia|].
+  destruct f2 as [|f2]; [lia|]. cbn [store_loop]. unfold bind at 1 3.
+  pose proof (receive_pdu_consumes c_RTR_RECV_TIMEOUT w) as Hc.
+  destruct (receive_pdu c_RTR_RECV_TIMEOUT w) as [[c|p] w1|x w1]; try reflexivity.
+  assert (Hb1 : (ev_bytes (evs w1) < 8 * f1)%nat) by lia.
+  repeat match goal with |- (if ?c then _ else _) _ = (if ?c then _ else _) _ => destruct c; try reflexivity end;
+    apply IH; auto; lia.
+Qed.
+
+Theorem sync_first_fuel f1 : forall f2 w,
+  (ev_bytes (evs w) < 8 * f1)%nat -> (f1 <= f2)%nat -> sync_first f1 w = sync_first f2 w.
+Proof.
+  induction f1 as [|f1 IH]; intros f2 w Hb Hf; [lia|].
+  destruct f2 as [|f2]; [lia|]. cbn [sync_first]. unfold bind at 1 3.
+  pose proof (receive_pdu_consumes c_RTR_RECV_TIMEOUT w) as Hc.
+  destruct (receive_pdu c_RTR_RECV_TIMEOUT w) as [[c|p] w1|x w1]; try reflexivity.
+  destruct (nthb p 1 =? c_SERIAL_NOTIFY); [|reflexivity]. apply IH; lia.
+Qed.
+
+Lemma sync_first_M fuel : forall w, relM (sync_first fuel) w.
+Proof.
+  induction fuel as [|f IH]; intros; cbn [sync_first]; [apply (rel_ret M M_refl)|].
+  repeat mstep; try mlem; try apply receive_pdu_M; try apply IH; try (mprim; fail).
+Qed.
+
+Theorem rtr_sync_fuel f1 f2 w :
+  (ev_bytes (evs w) < 8 * f1)%nat -> (f1 <= f2)%nat -> rtr_sync f1 w = rtr_sync f2 w.
+Proof.
+  intros Hb Hf. unfold rtr_sync. unfold bind at 1 6.
+  rewrite (sync_first_fuel f1 f2 w Hb Hf).
+  pose proof (sync_first_M f2 w) as H1. unfold rel in H1.
+  destruct (sync_first f2 w) as [[p|] w1|x w1]; try reflexivity.
+  repeat match goal with |- (if ?c then _ else _) _ = (if ?c then _ else _) _ => destruct c; try reflexivity end.
+  unfold bind at 1 6. unfold get_sk. unfold bind at 1 5.
+  match goal with |- match ?m w1 with _ => _ end = _ => assert (Hk : relM m w1) end.
+  { repeat mstep; try mlem; try (mprim; fail). }
+  unfold rel in Hk.
+  match goal with |- match ?m w1 with _ => _ end = _ => destruct (m w1) as [ok w2|x w2]; [|reflexivity] end.
+  destruct (negb ok); [reflexivity|].
+  unfold receive_and_store. unfold bind at 1 2. unfold bind at 5 6.
+  rewrite (store_loop_fuel f1 f2 [] [] [] w2) by (unfold M in *; lia). reflexivity.
 Qed.
